@@ -15,6 +15,21 @@ CLAIMED = {
    text="Every scenario of a corpus covering all default side-effect paths is run fault-free and once per fallible Database/Transport/callback call with that call failing; a monitor inside the simulated Database checks balance, re-entry, unlock-without-lock and lock-held-on-access per request. The single-fault space of the corpus is swept completely; everything beyond is seeded sampling.",
    note="Trusts SimDB's lock semantics (non-reentrant per-id mutex; failed Lock takes nothing, failed Unlock still frees) as the meaning of 'good-faith application'; 'holds a lock' = holds at least one. Evidence is sampling beyond the swept corpus, not proof.",
    design="5/C09"),
+ "C02": dict(level="exploration", technique="deterministic simulation: seeded federation graphs with per-IRI fetch faults (unreachable / garbled / unknown-type peers) served through the simulated network; executable recipient-resolution model as oracle",
+   text="The real outbox path (PostOutbox/Send -> prepare -> resolveActors -> BatchDeliver) runs against a simulated federation whose documents are served by the real ActivityStreams handler of peer servers or by scripted remote hosts with injected fetch faults; the BatchDeliver recipient set and the Dereference log are compared with a reference model that knows the same fault plan.",
+   note="Seeded sampling of graphs, addressings and fates. The model is written from the statement (set semantics); documents that parse but lack an inbox are out of scope here (C11).", design="5/C02"),
+ "C03": dict(level="exploration", technique="deterministic simulation: always-on wire monitor on every transport payload and handler body, GETs scheduled concurrently with deliveries, protocol configurations and fetch faults varied per run",
+   text="Every payload handed to an outbox-bound transport and every body served by the GET handler in any fedsim run is parsed and checked for bto/bcc (activity and direct objects; handler: any object depth); a dedicated workload biases towards hidden recipients, runs Social-only / Federating-only / both, auto-accepted Follows with hidden recipients, and checks with the C02 model that the hidden recipients' inboxes are still delivered to.",
+   note="Outbox-originated = transport created for an outbox IRI. Sampling, not proof.", design="5/C03"),
+ "C05": dict(level="exploration", technique="deterministic simulation: seeded histories of outbox posts with a complete single-fault sweep of every seam call on a third of the cases; normalisation reference model, event-order monitor and outbox-history check",
+   text="Histories of 1-8 posts run through the real PostOutbox/Send path; the values given to Database.Create are compared with a set-semantics model of wrapping and Create normalisation; the event log must show NewID < object stores < activity store < outbox write (front, once) < first transport call with Location = id; after the history the outbox lists exactly the returned ids newest first; with any Database call failing nothing may reach the transport afterwards.",
+   note="Sampling of inputs; single-fault space swept completely only for the swept cases. Two readings of 'each object having gained the activity's' are both accepted.", design="5/C05"),
+ "C07": dict(level="exploration", technique="deterministic simulation: per-task trace automaton over all seam calls while 1-3 requests of the entry-point x configuration x outcome product run under a seeded schedule",
+   text="Every Database, Transport and application call is attributed to the request task that made it; a monitor rejects any such call before that task's authentication succeeded and, for inbox POSTs, before its block check passed; requests classified non-ActivityPub by an independent classifier must be untouched and unhandled, and a disabled protocol must answer 405 with zero application calls.",
+   note="Product sampled by seed, not enumerated. Ambiguous header spellings only checked for consistency.", design="5/C07"),
+ "C10": dict(level="fault_enumeration", technique="deterministic simulation: counting ResponseWriter + (handled, err) trichotomy monitor over the request product and over a complete single-fault sweep of the side-effect corpus",
+   text="A recording ResponseWriter counts header and body writes (separating those the application makes inside Authenticate*); each finished entry call must be in exactly one of the three documented end states, with the status table of the statement checked by an independent request classifier; the corpus of all side-effect paths is swept with every single seam-call fault.",
+   note="Single-fault sweep is complete for the corpus; the request product is sampled. 'Usable id' resolved as stated in assumptions.", design="5/C10"),
  "C08": dict(level="exploration", technique="deterministic simulation: seeded schedule search (random walk, sticky, PCT) over 2-5 concurrent requests at Database/Transport/callback granularity; sequential-equivalence oracle, porcupine linearizability of inbox/outbox histories, deadlock detection by wait-for cycles",
    text="Real Actor methods run as tasks under a seeded scheduler that owns every interleaving at seam granularity, with nested deliveries between two simulated servers. Each concurrent run is compared, collection by collection, with the same requests executed sequentially in every order; inbox/outbox post/read histories are checked with porcupine; duplicate deliveries are counted; a fault class checks that everything still completes when one call fails.",
    note="Sampling of schedules (seeded), not exhaustive enumeration. Assumes SimDB's per-id mutual exclusion and copy semantics. Sequential reference is the library itself run one request at a time.",
